@@ -1145,7 +1145,7 @@ c08_bulk!(c08_bulk_roundtrip_i64, i64, u64, 2);
 c08_bulk!(c08_bulk_roundtrip_f32, f32, i32, 2);
 
 //@ name: c08_bulk_roundtrip_f64
-//@ prop: C08
+//@ prop: C08, C01
 //@ tier: quick
 //@ clause: for element type f64: the bulk decoder returns bit-for-bit the originals (NaN payloads, infinities, extreme integers are just bit patterns); the streaming writer emits the same frame as the buffered builder; a body of another element type (i64) or of another body format is rejected rather than reinterpreted
 //@ funcs: MessageBuilder::body_typed_slice; Message::decode_typed_slice; Message::require_body_format; io::write_message_typed_slice; io::write_message_streaming; io::write_message; beve::to_writer_typed_slice; beve::typed_slice_size; beve::read_typed_slice
